@@ -472,7 +472,7 @@ func genHandleCase(rt *rapid.T) HandleCase {
 var c12 = &h.Campaign[HandleCase]{
 	Prop: "C12", Sub: "handles",
 	Rule: "rapid, under the race detector: 2-8 reader goroutines spin over every handle (declared ones and ones published by lookups) while a driver executes 3-30 generated events: service change, poll through the store's poller, explicit Refresh, lookup of a new name, expiry sweep (clock jump + poll), Close, and 'parked' polls/lookups during which the service holds the request while all handles are read under a 5 s real-time watchdog; values are self-describing (name#version#padding of version-dependent length); per read: parses as a value the service served for that name, per reader versions never go backwards, a version whose installing poll was acknowledged before the read is the minimum; non-trivial = reads overlapped an install (counted from an 'installing' flag sampled around each read); distinct by (scenario, run) because schedules are sampled",
-	Quick: 1200, Thorough: 40000,
+	Quick: 1200, Thorough: 150000,
 	Gen:   genHandleCase,
 	Run:   runC12,
 	Key:   func(c HandleCase) any { return fmt.Sprintf("%v/%d", c, nonce.Add(1)) },
